@@ -395,6 +395,8 @@ def body(ctx):
     blocks = strip_defs(blocks)
     chunks = [blocks[i:i + 30] for i in range(0, len(blocks), 30)]
 
+    undecided = []
+
     def do_conv(arg):
         ci, ch = arg
         mod, alive, dropped = irbuild.build_blocks(ctx, prelude + gdefs + "\n", ch, "c09c%d" % ci, only=lambda n: n.startswith(("cv_", "ca_")))
@@ -402,7 +404,12 @@ def body(ctx):
         nob = ndis = 0
         for k in alive:
             s, d, r1, t = meta[k]
-            a, b = analyse_conv(ctx, mod, k, s, d, r1, t, fs)
+            try:
+                a, b = analyse_conv(ctx, mod, k, s, d, r1, t, fs)
+            except AnalysisBroken as e:
+                # no verdict for this instance: fatal unless other instances show real violations
+                undecided.append(str(e))
+                continue
             nob += a
             ndis += b
         return nob, ndis, len(alive), fs, dropped
@@ -452,6 +459,10 @@ def body(ctx):
     ctx.require(ntwo[0] >= 5, "only %d two-parameter blocks analysed" % ntwo[0])
     for key, what, detail in findings:
         ctx.violation(key, what, detail)
+    if undecided:
+        ctx.log("%d conversion instance(s) without a verdict, first: %s" % (len(undecided), undecided[0]))
+        if not findings:
+            raise AnalysisBroken("%d conversion instance(s) not analysable, first: %s" % (len(undecided), undecided[0]))
 
     # ---- W
     items = witnesses()
